@@ -304,19 +304,70 @@ def run_one(binary, text, timeout, env=None):
         return 124, [], "[timeout after %ss]" % timeout
 
 
-def run_stream(binary, lines, timeout, env=None):
-    """run_one, restarted after every case on which the harness watchdog ended the process (its last line is then DOES-NOT-RETURN)"""
-    out, err, pos, t0 = [], "", 0, time.time()
-    while True:
-        r, o, e = run_one(binary, "\n".join(lines[pos:]) + "\n", max(30, timeout - (time.time() - t0)), env)
+NOT_DRIVEN = "NOT-DRIVEN"
+MAX_OVERRUNS = 6          # first-stage CPU-budget overruns per run (all streams, configurations and parallel chunks together)
+MAX_CONFIRMATIONS = 3     # re-runs alone with the larger budget per run
+MAX_CRASHES_PER_FORM = 4
+MAX_CRASHES = 12
+
+
+class Caps:
+    """shared by every stream / chunk / configuration of one run (threads): a hang must not cost workers x budget"""
+    def __init__(self):
+        import threading
+        self.lock = threading.Lock()
+        self.overruns = 0
+        self.confirmations = 0
+        self.crashes = {}
+        self.dead_forms = set()      # call forms that hung once (or crashed 4 times): not driven any more in this run
+        self.stopped = []            # streams cut short because a cap was reached
+
+    def form_dead(self, line):
+        return line.split(" ", 1)[0] in self.dead_forms
+
+
+CAPS = Caps()
+
+
+def run_stream(binary, lines, timeout, env=None, caps=None):
+    """run_one, restarted after every case on which the harness watchdog ended the process (last line DOES-NOT-RETURN) or on which the
+    process died (CRASH <rc>).  After the first overrun of a call form that form is not driven any more (NOT-DRIVEN lines), in any stream;
+    when the run's cap of overruns / crashes is reached the rest of the stream is not driven either."""
+    caps = caps or CAPS
+    out, err, t0 = [], "", time.time()
+    while len(out) < len(lines):
+        rest = lines[len(out):]
+        if caps.form_dead(rest[0]) or caps.overruns >= MAX_OVERRUNS or sum(caps.crashes.values()) >= MAX_CRASHES:
+            if not caps.form_dead(rest[0]):
+                with caps.lock:
+                    caps.stopped.append("%d cases from `%s` on" % (len(rest), rest[0][:60]))
+                out += [NOT_DRIVEN] * len(rest)
+                break
+            out.append(NOT_DRIVEN)
+            continue
+        # drive up to the next case of a dead form
+        n = 0
+        while n < len(rest) and not caps.form_dead(rest[n]):
+            n += 1
+        r, o, e = run_one(binary, "\n".join(rest[:n]) + "\n", max(30, timeout - (time.time() - t0)), env)
         err += e
         if r == 124:
             return 124, out, err
         out += o
-        pos = len(out)
-        if r == 0 and pos < len(lines) and o and o[-1].strip() == DNR:
-            continue
-        return r, out, err
+        if o and o[-1].strip() == DNR and r == 0:      # the watchdog ended the process on the case of the last line
+            with caps.lock:
+                caps.overruns += 1
+                caps.dead_forms.add(rest[len(o) - 1].split(" ", 1)[0])
+        elif len(o) < n:                               # the process died on the next case
+            form = rest[len(o)].split(" ", 1)[0]
+            out.append("CRASH %s" % r)
+            with caps.lock:
+                caps.crashes[form] = caps.crashes.get(form, 0) + 1
+                if caps.crashes[form] >= MAX_CRASHES_PER_FORM:
+                    caps.dead_forms.add(form)
+        elif r != 0:
+            return r, out, err
+    return 0, out, err
 
 
 def run_chunks(binary, lines, timeout, env=None):
@@ -360,6 +411,61 @@ STREAM_CPU_BUDGET = "10"      # CPU seconds per case inside the streams (a legit
 CONFIRM_CPU_BUDGET = "30"     # ... when a case that hit the budget is re-run alone
 PROBE_CPU_BUDGET = "0.3"      # known does-not-return inputs: each in a process of its own (logp leaks ~700 MB per CPU second while it loops)
 PROBE_CONFIRM_BUDGET = "1.0"
+
+
+DEBUG_FLAGS = ("-D__GIVARO_DEBUG", "-DC01_DEBUGCFG")
+DEBUG_FORMS = ("inv3", "invin", "powmod", "dom_powmod", "dom_inv", "fact", "pow3_", "pow_", "dom_pow_", "gcd", "lcm", "dom_gcdin", "dom_lcmin",
+               "dom_dxgcd", "pp", "sqrt", "root", "logp", "swap", "abs_v", "length", "size", "bitsize", "limb", "cast_vect", "isperfectpower")
+
+
+def debug_stream(chk, replay):
+    """givaro's --enable-debug configuration (-D__GIVARO_DEBUG): gmp++_int_gcd.C / _misc.C / _pow.C are compiled inside the harness with their
+    `#ifdef __GIVARO_DEBUG` blocks and GIVARO_ASSERT / ENSURE / REQUIRE post-conditions on; the deterministic grid of the operations defined
+    there is driven and compared with the specification oracle: a post-condition that fires on an input inside the domain is a failing input."""
+    if replay:
+        return
+    hdbg, l3 = vf.build_harness("c01_integer.C", deps=HARNESS_DEPS, extra_flags=DEBUG_FLAGS, name="c01_integer_dbg")
+    if hdbg is None:
+        if "[timeout after" in (l3 or ""):
+            chk.cov["inconclusive"].append("compiling the -D__GIVARO_DEBUG harness timed out; the debug-configuration stream was not run")
+        else:
+            chk.broke("the harness does not compile against /repo in the -D__GIVARO_DEBUG configuration", l3)
+        chk.cov["floor"]["debug-configuration comparisons"] = (0, 1000)
+        return
+    cases = []
+    for v in sorted(T.VARIANTS):
+        spec = T.VARIANTS[v]
+        if v.split("@")[0].startswith(DEBUG_FORMS) and spec["oracle"] is not None and "verify" not in spec and not v.endswith("@unit"):
+            cases += [(v, a) for a in T.grid_cases(v, spec)]
+    lines, _ = lines_for(cases, {})
+    rc, out, err = run_chunks(hdbg, lines, 900, {"C01_CPU_BUDGET": STREAM_CPU_BUDGET})
+    if rc == 124:
+        chk.cov["inconclusive"].append("the -D__GIVARO_DEBUG harness did not finish within its wall-clock limit; the debug-configuration stream was not compared")
+        chk.cov["floor"]["debug-configuration comparisons"] = (0, 1000)
+        return
+    if rc != 0 or len(out) != len(cases):
+        chk.broke("-D__GIVARO_DEBUG harness failed (rc=%s, %d/%d lines)" % (rc, len(out), len(cases)), err)
+        return
+    n = bad = 0
+    for (v, a), g in zip(cases, out):
+        spec = T.VARIANTS[v]
+        got = g.split()
+        if got in ([NOT_DRIVEN], ["UNKNOWN-VARIANT"]):
+            continue
+        exp = spec["oracle"](*a)
+        if exp is None:
+            continue
+        exp = [str(x) for x in (exp if isinstance(exp, (list, tuple)) else [exp])]
+        n += 1
+        if got != exp:
+            bad += 1
+            ks = T.kinds(spec, a)
+            kl = "does not return" if got == [DNR] else "crash" if got[:1] == ["CRASH"] else "post-condition or debug-only code rejects a valid input" if got == ["THROWS"] else T.klass_of(spec, a)
+            chk.fail_input(spec["site"] + " [-D__GIVARO_DEBUG]", kl, {"variant": v, "args": [T.ser(k, x) for k, x in zip(ks, a)], "build": "-D__GIVARO_DEBUG"},
+                           exp, g.strip(), "the debug configuration of the library differs from integer arithmetic over Z on this input")
+    chk.cov["debug_configuration"] = {"flags": list(DEBUG_FLAGS), "recompiled_units": ["gmp++_int_gcd.C", "gmp++_int_misc.C", "gmp++_int_pow.C"],
+                                      "call_forms": len({v for v, _ in cases}), "comparisons": n, "differences": bad}
+    chk.cov["floor"]["debug-configuration comparisons"] = (n, 1000 if not chk.failing else 0)
 
 
 def finish(chk):
@@ -544,24 +650,30 @@ def main(tier, replay=None):
         chk.broke("implementation harness failed (rc=%s, %d/%d lines)" % (rc, len(iout), nstream), ierr + "\n" + (impl_in[len(iout)] if len(iout) < len(impl_in) else ""))
         return finish(chk)
     # a case that used up its CPU budget inside a stream is re-run alone with a larger budget before it is called a hang
-    dnr_confirmed, dnr_recovered, per_form, dnr_skipped = [], 0, {}, 0
+    dnr_confirmed, dnr_recovered, dnr_skipped = [], 0, 0
     for i in range(nstream):
         if iout[i].strip() == DNR:
-            if per_form.get(cases[i][0], 0) >= 3:     # three confirmed hangs of one call form are enough: the others are neither failing inputs nor passes
-                iout[i] = "PROBE-NOT-RUN"; dnr_skipped += 1
+            if CAPS.confirmations >= MAX_CONFIRMATIONS:      # neither a failing input nor a pass
+                iout[i] = NOT_DRIVEN; dnr_skipped += 1
                 continue
-            per_form[cases[i][0]] = per_form.get(cases[i][0], 0) + 1
+            CAPS.confirmations += 1
             r, o, _ = run_one(himpl, impl_in[i] + "\n", 600, {"C01_CPU_BUDGET": CONFIRM_CPU_BUDGET})
             if r == 0 and len(o) == 1 and o[0].strip() != DNR:
                 iout[i] = o[0]; dnr_recovered += 1
+                CAPS.dead_forms.discard(cases[i][0])
             elif r == 0 and len(o) == 1:
                 dnr_confirmed.append(i)
             else:
                 chk.cov["inconclusive"].append("re-run of a case that hit its CPU budget failed (rc=%s): %s" % (r, impl_in[i][:120]))
+                iout[i] = NOT_DRIVEN
     # probes: one process per case, small CPU budget, confirmed with a larger one
     for i in probe_idx:
+        if CAPS.form_dead(impl_in[i]):
+            iout.append(NOT_DRIVEN)
+            continue
         r, o, e = run_one(himpl, impl_in[i] + "\n", 300, {"C01_CPU_BUDGET": PROBE_CPU_BUDGET})
         if r == 0 and len(o) == 1 and o[0].strip() == DNR:
+            CAPS.dead_forms.add(cases[i][0])
             r, o, e = run_one(himpl, impl_in[i] + "\n", 600, {"C01_CPU_BUDGET": PROBE_CONFIRM_BUDGET})
             if r == 0 and len(o) == 1 and o[0].strip() == DNR:
                 dnr_confirmed.append(i)
@@ -572,6 +684,10 @@ def main(tier, replay=None):
     chk.cov["cpu_watchdog"] = {"per_case_cpu_budget_s": float(STREAM_CPU_BUDGET), "confirm_budget_s": float(CONFIRM_CPU_BUDGET),
                                "probe_budget_s": float(PROBE_CPU_BUDGET), "probe_confirm_budget_s": float(PROBE_CONFIRM_BUDGET),
                                "probes": len(probe_idx), "cases_over_budget_then_returned": dnr_recovered, "cases_over_budget_not_re_run": dnr_skipped,
+                               "caps": {"first_stage_overruns_per_run": MAX_OVERRUNS, "confirmations_per_run": MAX_CONFIRMATIONS,
+                                        "crashes_per_form": MAX_CRASHES_PER_FORM, "crashes_per_run": MAX_CRASHES},
+                               "first_stage_overruns": CAPS.overruns, "call_forms_not_driven_any_more": sorted(CAPS.dead_forms),
+                               "crashes_by_form": dict(CAPS.crashes), "streams_cut_short": list(CAPS.stopped),
                                "cases_confirmed_not_returning": [impl_in[i] for i in dnr_confirmed][:20]}
     mout = None
     if drv:
@@ -584,7 +700,7 @@ def main(tier, replay=None):
             chk.broke("model driver failed (rc=%s, %d/%d lines)" % (rc, len(mout), len(cases)), merr)
             mout = None
     # 5. three-way comparison
-    ncorr = nspec = 0
+    ncorr = nspec = not_driven = 0
     dist, corr_bad, unknown_model = {}, {}, set()
     for i, (v, a) in enumerate(cases):
         spec = T.VARIANTS[v]
@@ -602,7 +718,12 @@ def main(tier, replay=None):
         if got == ["UNKNOWN-VARIANT"]:
             chk.broke("harness does not know variant " + v)
             continue
-        if got == ["PROBE-NOT-RUN"]:
+        if got in (["PROBE-NOT-RUN"], [NOT_DRIVEN]):
+            not_driven += 1
+            continue
+        if got[:1] == ["CRASH"]:
+            chk.fail_input(spec["site"], "crash", {"variant": v, "args": [T.ser(k, x) for k, x in zip(ks, a)]}, exp or ["<the call returns>"],
+                           iout[i].strip(), "the harness process died on this case (exit status / signal %s)" % got[-1])
             continue
         if got == [DNR]:        # confirmed with the larger CPU budget: a concrete failing input whatever the oracle says
             kl = T.klass_of(spec, a)
@@ -640,11 +761,13 @@ def main(tier, replay=None):
     chk.cov["rule"] = ("every call form (variant) x structured operands: 0, +-1, word limits (INT32/INT64 MIN/MAX, UINT32/UINT64 MAX), 2^63, "
                        "2^64+-1, multi-limb values with limbs from {0,1,2^63,2^64-1,random}; word operands drawn from the edges of their C type "
                        "and random; non-trivial = some big-integer operand with |x| > 1; distinct = (variant, operands)")
+    debug_stream(chk, replay)
     chk.cov["traces_validated_against_impl"] = ncorr
     chk.cov["oracle_comparisons"] = nspec
+    chk.cov["cases_not_driven"] = not_driven      # after a hang / repeated crash of their call form or a cap: neither failing inputs nor passes
     nmodelled = sum(1 for v, a in cases if not T.VARIANTS[v].get("oracle_only"))
-    chk.cov["floor"]["oracle comparisons"] = (nspec, int(0.9 * sum(1 for v, a in cases if T.VARIANTS[v]["oracle"] is not None)))
-    chk.cov["floor"]["correspondence comparisons (model = implementation)"] = (ncorr, int(0.9 * max(0, nmodelled - len(chk.failing))))
+    chk.cov["floor"]["oracle comparisons"] = (nspec, int(0.9 * sum(1 for v, a in cases if T.VARIANTS[v]["oracle"] is not None)) if not chk.failing else 0)
+    chk.cov["floor"]["correspondence comparisons (model = implementation)"] = (ncorr, int(0.9 * max(0, nmodelled - len(chk.failing))) if not chk.failing else 0)
     chk.cov["variants"] = len(T.VARIANTS)
     chk.cov["variants_oracle_only"] = sorted(v for v in T.VARIANTS if T.VARIANTS[v].get("oracle_only"))
     chk.cov["distribution_by_variant"] = dist
